@@ -6,7 +6,7 @@ COMMON_NOTE = ('Trusted: Coq 8.16.1 kernel (vm_compute used, native_compute not)
 CLAIMS = {
     'C18': dict(
         text=('Theorem C18_no_origin: for every plain GET carrying only-if-cached the effect tree of RoundTrip has no origin call '
-              'on any path, for every store answer and clock reading (structural, unbounded); C18_answer: every leaf is a response. '
+              'on any path, for every store answer and clock reading (structural, unbounded); C18_answer: every leaf is a response; C18_history: along EVERY sequential history such an exchange logs no origin call in the foreground or in background work and returns the 504 or the served form of a stored entry with a known source (Src) that does not need validation by the specification. '
               'Each run re-checks the proofs, runs generated histories on the real transport and on the extracted model, and '
               'evaluates the extracted monitor mon_C18 (no origin call in foreground or background; answer is a usable stored '
               'response or the synthesised 504) on what the implementation did.'),
@@ -30,7 +30,7 @@ CLAIMS.update({
               'stale+must-revalidate, request no-cache, exceeded request max-age are never overridden), C02_no_stale_fallback, '
               'C02_mandatory_validation_outcome (mandatory validation that fails returns the origin\'s answer or error, never the stored response), '
               'C02_validation_request (every origin call carries the client\'s method, URL and header fields plus only If-None-Match / '
-              'If-Modified-Since from the stored validators; request values are immutable in the model). Monitor mon_C02 on the real transport each run.'),
+              'If-Modified-Since from the stored validators; request values are immutable in the model), and at history level C02_history_unvalidated (along EVERY sequential history from an empty store a response returned without contacting the origin is the synthesised 504 or the served form of an entry whose fields and instants are those of origin calls of the history (Src) and which does not need validation by the specification at that instant). Monitor mon_C02 (with age_inputs: what a 304 leaves in the store) on the real transport each run; the runner snapshots the caller\'s request around every RoundTrip and reuses it afterwards.'),
         note=COMMON_NOTE + ' That Go\'s cloneRequest copies the header map (client request left unmodified) is observed by the harness, not proved.'),
     'C10': dict(
         text=('Theorems C10_no_panic / C10_no_panic_background (no panic node on any path of the round-trip and background programs, for every '
